@@ -23,7 +23,8 @@ INVS = ["TypeOK", "CallsBound", "ExactAttempts", "NoEarlyStop", "TrueLastOutcome
 
 
 class E1(Exception):
-    pass
+    def __bool__(self):
+        return False    # exceptions are user objects too: nothing may decide by their truthiness
 
 
 class E1Sub(E1):
@@ -31,15 +32,18 @@ class E1Sub(E1):
 
 
 class E3(Exception):
-    pass
+    def __bool__(self):
+        return False    # exceptions are user objects too: nothing may decide by their truthiness
 
 
 class E2(Exception):
-    pass
+    def __bool__(self):
+        return False    # exceptions are user objects too: nothing may decide by their truthiness
 
 
 class Base(BaseException):
-    pass
+    def __bool__(self):
+        return False    # exceptions are user objects too: nothing may decide by their truthiness
 
 
 class _ScriptEnd(BaseException):
